@@ -260,8 +260,8 @@ func c09Residue(ctx *core.Ctx, idx int) core.Result {
 
 func init() {
 	register(&core.Property{
-		ID: "C09",
-		Rule: "(1) residue: typed sessions (as in C01) and the directed corpus in REPL and script mode, (sp, frames, closures, live contexts) compared before/after every statement (after a failing statement all must be 0 and the main instruction pointer at the end of the code); (2) N-scaling: programs whose last statement is a loop of N iterations — while, for, zipped for, nested for, for inside a function, loop over a generator that itself loops — with every statement form as the last statement of the body (expression, if with computed and with constant body, if/else, inner for, inner while, call, array literal, assignment), run with N = 3, 30, 300; max stack pointer per memory kind and max live contexts at back-edges must not depend on N. non-trivial = >= 25 reference steps with a call or loop (residue) / >= 100 back-edges sampled (scaling).",
+		ID:          "C09",
+		Rule:        "(1) residue: typed sessions (as in C01) and the directed corpus in REPL and script mode, (sp, frames, closures, live contexts) compared before/after every statement (after a failing statement all must be 0 and the main instruction pointer at the end of the code); (2) N-scaling: programs whose last statement is a loop of N iterations — while, for, zipped for, nested for, for inside a function, loop over a generator that itself loops — with every statement form as the last statement of the body (expression, if with computed and with constant body, if/else, inner for, inner while, call, array literal, assignment), run with N = 3, 30, 300; max stack pointer per memory kind and max live contexts at back-edges must not depend on N. non-trivial = >= 25 reference steps with a call or loop (residue) / >= 100 back-edges sampled (scaling).",
 		Assumptions: []string{"the operand stack holds fixed-size value headers, so live data size does not enter the stack pointer"},
 		Families: []core.Family{
 			{Name: "corpus", Count: func(string) int { return len(corpusSessions()) * 2 * len(stressModes) }, Run: func(_ *core.Ctx, idx int) core.Result { return corpusCase("C09", idx, true) }},
